@@ -177,9 +177,14 @@ func Harness_C04_EncodedNames() {
 	kind := []string{"!type", "!table"}[nd.IntRange("declared-as", 0, 1)]
 	name := []string{"Order%3AItem", "Stock%2ELevel", "Plain"}[nd.IntRange("name", 0, 2)]
 	inFile := nd.Bool("second-block-in-imported-file")
-	b1 := "App:\n    " + kind + " " + name + ":\n        a <: int\n"
-	b2 := "App:\n    " + kind + " " + name + ":\n        b <: string\n"
-	joined := "App:\n    " + kind + " " + name + ":\n        a <: int\n        b <: string\n"
+	// the application's own name may carry an escape too (stored decoded: "Shop :: Orders.v2")
+	appText, appKey := "App", "App"
+	if nd.Bool("application-name-escaped") {
+		appText, appKey = "Shop :: Orders%2Ev2", "Shop :: Orders.v2"
+	}
+	b1 := appText + ":\n    " + kind + " " + name + ":\n        a <: int\n"
+	b2 := appText + ":\n    " + kind + " " + name + ":\n        b <: string\n"
+	joined := appText + ":\n    " + kind + " " + name + ":\n        a <: int\n        b <: string\n"
 	jmod, jerr, jcrash, _ := feCompileText(joined)
 	files := map[string]string{"a.sysl": b1 + b2}
 	if inFile {
@@ -190,7 +195,11 @@ func Harness_C04_EncodedNames() {
 	if jcrash || scrash || jerr != nil || serr != nil || jmod == nil || smod == nil {
 		return
 	}
-	jt, st := jmod.Apps["App"].Types, smod.Apps["App"].Types
+	nd.Assert("encoded:one-application-under-the-decoded-name", len(jmod.Apps) == 1 && len(smod.Apps) == 1 && jmod.Apps[appKey] != nil && smod.Apps[appKey] != nil)
+	if jmod.Apps[appKey] == nil || smod.Apps[appKey] == nil {
+		return
+	}
+	jt, st := jmod.Apps[appKey].Types, smod.Apps[appKey].Types
 	nd.Assert("encoded:one-type-under-the-decoded-name", len(jt) == 1 && len(st) == 1)
 	for k, t := range jt {
 		fields := func(t *sysl.Type) map[string]*sysl.Type {
